@@ -632,14 +632,15 @@ def F32_object_blob_alias():
     return {"fails": bool(bad), "detail": "; ".join(bad) or "nested arrays are copied by set/get/commit/get_history/results/posterior"}
 
 
-# ---------------------------------------------------------------- C09 / F34 (suspected; reported by the C09 clause audit)
+# ---------------------------------------------------------------- C09 / F34
 def F34_rerun_reseeds_stream():
-    """The fresh branch of `run_sampling` calls `_initialize_fresh`, which seeds with `config.random_state` UNCONDITIONALLY — also
-    when the sampler already holds a history: after a first `run()`, or after `load_state()` followed by `run()` (the documented
-    way to continue from a manual checkpoint, docs/user_guide/advanced.md).  The continuation then restarts the stream at
-    position 0 (the position restored by `load_state` is overwritten) and receives again the numbers that generated the first
-    batch of the original run: its first draw, the training resample `np.random.choice(n, size=4n, p=w)`, consumes uniforms whose
-    first n_particles*n_dim are exactly `u[0]` of the original run."""
+    """The no-resume branch of `run_sampling` called `_initialize_fresh`, which seeds with `config.random_state`, UNCONDITIONALLY —
+    also when the sampler already held a history: after a first `run()`, or after `load_state()` followed by `run()` (the
+    documented way to continue from a manual checkpoint, docs/user_guide/advanced.md).  The continuation then restarted the
+    stream at position 0 (the position restored by `load_state` was overwritten) and received again the numbers that generated
+    the first batch of the original run: its first draw, the training resample `np.random.choice(n, size=4n, p=w)`, consumed
+    uniforms whose first n_particles*n_dim are exactly `u[0]` of the original run.
+    (Repaired in aeb0399: a run that finds committed history continues it — no seeding, no counter reset.)"""
     import contextlib
     import io
     import tempfile
